@@ -721,6 +721,11 @@ class ExprMixin(object):
             return f(self.as_str(container), self.as_str(item))
         if container.z is None:
             raise Undecided("in on %r" % (container,))
+        if container.kind is None and container.cls is None and item.kind == "str":
+            # container of unknown type: substring test when it is a string, unknown otherwise
+            f = u.uf("str_contains", u.Str, u.Str, u.Bool)
+            other = u.uf("in_unknown", u.Val, u.Val, u.Bool)(container.z, self.box(st, item).z)
+            return z3.If(u.is_S(container.z), f(u.s(container.z), self.as_str(item)), other)
         if container.kind != "ref":
             st.assume(u.is_R(container.z))
         r = u.r(container.z) if container.kind != "ref" else self.as_ref(container)
